@@ -905,6 +905,9 @@ class TaskFilterTrackProcessor(TrackProcessor):
                     for leaf_task in leafs_to_remove:
                         self.logger.info("Removing sub-task [%s] from challenge [%s] due to task filter.", leaf_task, challenge)
                         task.remove_task(leaf_task)
+                    # a parallel element that has lost all of its tasks cannot be executed
+                    if leafs_to_remove and len(list(task)) == 0:
+                        tasks_to_remove.append(task)
             for task in tasks_to_remove:
                 self.logger.info("Removing task [%s] from challenge [%s] due to task filter.", task, challenge)
                 challenge.remove_task(task)
